@@ -424,9 +424,13 @@ def check_coherence(ck, facts):
                 ini = L.get("init")
                 if ini is not None and ini.get("k") == "Decl" and len(ini.get("vars", [])) == 1:
                     ivar = ini["vars"][0]["d"]
-            role = "complete" if is_wait_any else "+".join(sorted({callee_name(c) for c in posts} | ({"gather"} if any(callee_name(c) == "gather" for c in mirror_ops) else set()))) or "mirrors"
-            ordinal[role] = ordinal.get(role, 0) + 1
-            key = "%s/loop:%s#%d" % (fkey(fn), role, ordinal[role])
+            # one instance per neighbour action (post / mirror gather / completion), so that merging or splitting loops keeps the count
+            actions = ["complete"] if is_wait_any else (sorted(callee_name(c) for c in posts) + ["gather"] * sum(1 for c in mirror_ops if callee_name(c) == "gather")) or ["mirrors"]
+            keys = []
+            for act in actions:
+                ordinal[act] = ordinal.get(act, 0) + 1
+                keys.append("%s/loop:%s#%d" % (fkey(fn), act, ordinal[act]))
+            key = keys[0]
             if ivar is None:
                 ck.incomplete("E14.neighbour-coherence", key + ": iteration variable of the neighbour loop not recognised")
                 continue
@@ -506,9 +510,10 @@ def check_coherence(ck, facts):
                     mst = rs.path(mo).steps if mo is not None else ()
                     if not (mst and mst[-1][0] == "call" and mst[-1][1] == "at"):
                         problems.append((h.get("l"), "handler mirror %s is not the per-neighbour mirror" % render(mo)))
-            ck.ob("E14.neighbour-coherence" if not is_wait_any else "E5.handler-commutes", key, not problems,
-                  "; ".join("line %s: %s" % p for p in problems) or ("%d subscripts, all with the iteration's neighbour index%s" % (
-                      nidx, "; handler = mirror[idx].scatter_axpy(target, recv_buffer[idx], 1)" if is_wait_any else "")), fn.file, problems[0][0] if problems else L.get("l"))
+            for key in keys:
+                ck.ob("E14.neighbour-coherence" if not is_wait_any else "E5.handler-commutes", key, not problems,
+                      "; ".join("line %s: %s" % p for p in problems) or ("%d subscripts in the loop, all with the iteration's neighbour index%s" % (
+                          nidx, "; handler = mirror[idx].scatter_axpy(target, recv_buffer[idx], 1)" if is_wait_any else "")), fn.file, problems[0][0] if problems else L.get("l"))
 
 
 # =====================================================================================================
@@ -810,8 +815,7 @@ def check_global_matrix(ck, facts):
 
             def is_sync(m, syncname=syncname):
                 return m.get("k") == "MCall" and callee_name(m) == syncname and (m.get("obj") or {}).get("k") == "Ref" and m["obj"].get("d") == pr["d"]
-            from checks.c18 import after_on_all_paths
-            if not after_on_all_paths(fn, c, is_sync):
+            if not dfl.after_on_all_paths(fn, c, is_sync):
                 problems.append("the type-0 result of the local product is not synchronised by %s.%s() on every path afterwards" % (pr["n"], syncname))
             if is_async:
                 rets = [n for n in walk(fn.body) if n.get("k") == "Return"]
@@ -825,7 +829,7 @@ def check_global_matrix(ck, facts):
 OPS = {"sum_async": ("op_sum", None), "min_async": ("op_min", False), "max_async": ("op_max", False), "norm2_async": ("op_sum", True)}
 
 
-def check_gate(ck, facts):
+def check_gate(ck, facts, partial=False):
     classes = sorted({f.cls for f in facts.functions if strip_targs(f.cls) == "FEAT::Global::Gate" and f.tk != "pattern" and f.name == "compile"})
     for cls in classes:
         fns = {}
@@ -837,7 +841,8 @@ def check_gate(ck, facts):
         def one(name):
             c = fns.get(name, [])
             if len(c) != 1:
-                ck.incomplete("E7.gate-discipline", "%s::%s: %d definitions" % (ck_, name, len(c)))
+                if not (partial and not c):
+                    ck.incomplete("E7.gate-discipline", "%s::%s: %d definitions" % (ck_, name, len(c)))
                 return None
             return c[0]
         # ---- field identities from push() and compile() ------------------------------------------------
@@ -940,6 +945,7 @@ def check_gate(ck, facts):
             par = dfl.parents(d)
             px, py = d.params[0]["d"], d.params[1]["d"]
             problems = []
+            unknown = []
             weighted = 0
 
             def is_xy(a, b):
@@ -949,8 +955,10 @@ def check_gate(ck, facts):
                 conds = enclosing_conds(par, r_)
                 inner = e
                 summed = False
+                e = rs.value(e) if e is not None else e
+                inner = e
                 if e is not None and e.get("k") == "MCall" and callee_name(e) == "sum" and len(e.get("a", [])) == 1:
-                    inner, summed = e["a"][0], True
+                    inner, summed = rs.value(e["a"][0]), True
                 if inner is not None and inner.get("k") == "MCall" and callee_name(inner) == "triple_dot" and this_field(inner.get("obj")) == freqs_f \
                         and len(inner.get("a", [])) == 2 and is_xy(*inner["a"]) and summed:
                     weighted += 1
@@ -963,11 +971,14 @@ def check_gate(ck, facts):
                         continue
                     problems.append((r_.get("l"), "returns the unweighted %s on a path where the process may have neighbours: shared dofs are counted once per sharing process" % render(e)[:60]))
                     continue
-                problems.append((r_.get("l"), "return value %s is neither sum(%s.triple_dot(x, y)) nor a guarded unweighted dot" % (render(e)[:70], freqs_f)))
-            if weighted != 1:
+                unknown.append("return value %s is neither sum(%s.triple_dot(x, y)) nor a guarded unweighted dot" % (render(e)[:70], freqs_f))
+            if unknown:
+                ck.incomplete("E7.gate-dot", "%s::dot: %s" % (ck_, "; ".join(unknown)))
+            if weighted != 1 and not unknown:
                 problems.append((d.line, "%d returns of sum(%s.triple_dot(x, y)) (expected exactly one, the neighbour case)" % (weighted, freqs_f)))
-            ck.ob("E7.gate-dot", ck_ + "::dot", not problems, "; ".join("line %s: %s" % p for p in problems) or
-                  "neighbour case returns sum(%s.triple_dot(x, y)); unweighted dot only for a single process / no neighbours" % freqs_f, d.file, problems[0][0] if problems else d.line)
+            if not unknown or problems:
+                ck.ob("E7.gate-dot", ck_ + "::dot", not problems, "; ".join("line %s: %s" % p for p in problems) or
+                      "neighbour case returns sum(%s.triple_dot(x, y)); unweighted dot only for a single process / no neighbours" % freqs_f, d.file, problems[0][0] if problems else d.line)
         da = one("dot_async")
         if da is not None:
             rets = [n for n in walk(da.body) if n.get("k") == "Return"]
@@ -1061,9 +1072,7 @@ def check_gate(ck, facts):
                     if var is None:
                         problems.append("the ticket is not a named local that is waited for")
                     else:
-                        from checks.c18 import after_on_all_paths
-                        decl = rs.var_decl_stmt.get(var["d"])
-                        if not after_on_all_paths(f, c, lambda m, var=var: m.get("k") == "MCall" and callee_name(m) == "wait" and (m.get("obj") or {}).get("d") == var["d"]):
+                        if not dfl.after_on_all_paths(f, c, lambda m, var=var: m.get("k") == "MCall" and callee_name(m) == "wait" and (m.get("obj") or {}).get("d") == var["d"]):
                             problems.append("ticket.wait() is not called on every path after the exchange was started")
             ck.ob("E7.gate-discipline", "%s::%s" % (ck_, name), not problems, "; ".join(problems) or
                   "%sSynchVectorTicket(vector, comm, %s, %s)%s" % ("from_1_to_0(vector); " if "sync_1" in name else "", ranks_f, mirrors_f, "" if name.endswith("_async") else "; wait()"), f.file, f.line)
@@ -1114,6 +1123,79 @@ def check_global_vector(ck, facts):
         ck.ob("E4.vector-delegate", "%s::%s" % (ckey(fn.cls), fn.name), ok, "returns %s" % render(e), fn.file, fn.line)
 
 
+def check_muxer(ck, facts):
+    """Muxer::join / split: child mirror i <-> slice [i*B, (i+1)*B) of the child buffer that the collective fills / sends with count B"""
+    for fn in facts.functions:
+        if fn.tk == "pattern" or strip_targs(fn.cls) != "FEAT::Global::Muxer" or fn.name not in ("join", "split") or fn.cfg is None:
+            continue
+        key = "%s::%s" % (ckey(fn.cls), fn.name)
+        rs = Resolver(fn)
+        par = dfl.parents(fn)
+        cfg = fn.cfg
+        coll_name = "gather" if fn.name == "join" else "scatter"
+        colls = [c for c in calls_of(fn) if c.get("k") == "MCall" and strip_targs(c.get("ccls", "")) == "FEAT::Dist::Comm" and callee_name(c) == coll_name]
+        mops = [c for c in calls_of(fn) if c.get("k") == "MCall" and strip_targs(c.get("ccls", "")) == "FEAT::LAFEM::VectorMirror" and callee_name(c) in ("gather", "scatter_axpy")
+                and dfl.enclosing_loops(fn, par, c)]
+        problems = []
+        if len(colls) != 1 or len(mops) != 1:
+            ck.incomplete("E14.muxer-slices", "%s: %d collectives, %d per-child mirror operations" % (key, len(colls), len(mops)))
+            continue
+        co, mo = colls[0], mops[0]
+        a = {pn: x for x, pn, pt in dfl.call_args_with_params(co, fn)}
+        sc, rc = this_field(rs.value(a.get("sendcount"))), this_field(rs.value(a.get("recvcount")))
+        if sc is None or sc != rc:
+            problems.append((co.get("l"), "collective %s uses counts (%s, %s): every sibling must contribute / receive the same slice length" % (coll_name, render(a.get("sendcount")), render(a.get("recvcount")))))
+        B = sc
+        L = dfl.enclosing_loops(fn, par, mo)[-1]
+        ini = L.get("init")
+        iv = ini["vars"][0]["d"] if ini is not None and ini.get("k") == "Decl" and len(ini.get("vars", [])) == 1 else None
+        recv = mo.get("obj")
+        mst = rs.path(recv).steps
+        if not (len(mst) == 3 and mst[0] == ("this",) and mst[1][0] == "field" and mst[2][0] == "call" and mst[2][1] == "at"):
+            problems.append((mo.get("l"), "per-child operation is not executed by an element of the child mirror array"))
+            cm = None
+        else:
+            cm = mst[1][1]
+            ix = rs.value(recv["a"][0]) if recv.get("k") == "MCall" else None
+            if not (ix is not None and ix.get("k") == "Ref" and ix.get("d") == iv):
+                problems.append((mo.get("l"), "child mirror subscripted with %s instead of the loop's child index" % render(ix)))
+        off = rs.value(dfl.arg_by_param(mo, "buffer_offset")) if dfl.arg_by_param(mo, "buffer_offset") is not None else None
+        ok_off = False
+        if off is not None and off.get("k") == "Bin" and off.get("op") == "*":
+            for x, y in ((off["lhs"], off["rhs"]), (off["rhs"], off["lhs"])):
+                x, y = rs.value(x), rs.value(y)
+                if x.get("k") == "Ref" and x.get("d") == iv and this_field(y) == B and B is not None:
+                    ok_off = True
+        if not ok_off:
+            problems.append((mo.get("l"), "buffer offset %s of child i is not i * %s (the slice length of the collective)" % (render(off), B)))
+        # loop range = all children
+        c = L.get("c")
+        bnd = unwrap_val(rs, c["rhs"]) if c is not None and c.get("k") == "Bin" and c.get("op") == "<" else None
+        if not (bnd is not None and bnd.get("k") == "MCall" and callee_name(bnd) == "size" and this_field(bnd.get("obj")) == cm):
+            problems.append((L.get("l"), "the child loop does not range over all child mirrors"))
+        # the buffer of the per-child operation is the array the collective fills / sends
+        cb = dfl.arg_by_param(mo, "buffer")
+        other = a.get("recvbuf") if fn.name == "join" else a.get("sendbuf")
+        if cb is None or other is None or other.get("k") != "MCall" or rs.path(other.get("obj")) != rs.path(cb):
+            problems.append((mo.get("l"), "per-child mirror works on %s but the collective %s %s" % (render(cb), "fills" if fn.name == "join" else "sends", render(other))))
+        if fn.name == "join":
+            if not cfg.stmt_dominates(co["i"], mo["i"]):
+                problems.append((mo.get("l"), "child buffers are scattered before the collective gather has filled them"))
+            trg = dfl.arg_by_param(mo, "vector")
+            fm = [m for m in calls_of(fn) if m.get("k") == "MCall" and callee_name(m) == "format" and trg is not None and rs.path(m.get("obj")) == rs.path(trg) and not dfl.enclosing_loops(fn, par, m)
+                  and cfg.stmt_dominates(m["i"], mo["i"])]
+            if not fm:
+                problems.append((mo.get("l"), "target vector is not formatted before the child contributions are added"))
+        else:
+            # the child loop as a whole precedes the collective (the loop header dominates it, the collective is outside the loop)
+            hdr = [b["id"] for b in cfg.blocks.values() if b.get("term_id") == L.get("i")]
+            wco = cfg.block_of(co["i"])
+            if dfl.enclosing_loops(fn, par, co) or not (hdr and wco is not None and hdr[0] in cfg.dom.get(wco[0], ())):
+                problems.append((co.get("l"), "the collective scatter sends the child buffers before they are gathered"))
+        ck.ob("E14.muxer-slices", key, not problems, "; ".join("line %s: %s" % p for p in problems) or
+              "child mirror i <-> slice i*%s of the child buffer; collective %s with counts (%s, %s)" % (B, coll_name, B, B), fn.file, problems[0][0] if problems else fn.line)
+
+
 # =====================================================================================================
 # driver
 # =====================================================================================================
@@ -1126,27 +1208,89 @@ def load(ck, alt=False):
 
 
 def declare_rules(ck):
-    ck.rule("E0.instantiate-mpi", "w", 1)
-    ck.rule("E14.requests-completed", "w", 1)
-    ck.rule("E14.buffers-outlive-requests", "w", 1)
-    ck.rule("E14.ticket-protocol", "w", 1)
-    ck.rule("E14.neighbour-coherence", "w", 1)
-    ck.rule("E5.handler-commutes", "w", 1)
-    for r in ("E7.matrix-apply-sync", "E7.gate-freqs", "E7.gate-dot", "E4.gate-reduction-op", "E7.gate-discipline", "E4.vector-delegate"):
-        ck.rule(r, "w", 1)
-    for r in ("E5.scatter-kernel-additive", "E2.gather-scatter-agree", "E1.mirror-dispatch", "E1.mirror-roles"):
-        ck.rule(r, "w", 1)
+    ck.rule("E0.instantiate-mpi", "Gate, SynchVectorTicket, SynchScalarTicket, SynchMatrix, Muxer, Splitter, Global::{Vector,Matrix,Filter,Transfer}, VectorMirror, MatrixMirror instantiate "
+            "with -DFEAT_HAVE_MPI for DenseVector / DenseVectorBlocked<2> / CSR / BCSR<2,2>: a member that does not type-check cannot synchronise anything (any caller of that member)", 24)
+    ck.rule("E14.requests-completed", "typestate idle/posted of every request holder (RequestVector / Request member or local) over the CFG: requests posted by irecv/isend/iallreduce are "
+            "completed by wait_all / wait / a wait_any loop left only through its false edge on every path before the function returns (constructors of ticket classes hand them "
+            "to wait()); a holder is never re-posted, cleared or resized while requests of another post site may be pending. Broken => buffers are read/overwritten while MPI still "
+            "owns them, for every run with at least one neighbour", 14)
+    ck.rule("E14.buffers-outlive-requests", "the buffer of every posted request lives at least as long as the request: members of the ticket / synch object, or locals of a function that "
+            "completes the request before returning; a request posted on the address of a by-value member is not transferred by a move operation while pending", 26)
+    ck.rule("E14.ticket-protocol", "ticket classes: wait() completes every request holder the constructor posted into on every path and then sets the completion flag; the destructor "
+            "asserts that flag (or waits). Broken => e.g. send requests never completed: buffers freed while messages are in flight", 11)
+    ck.rule("E14.neighbour-coherence", "inside one iteration of a neighbour loop every subscript of a per-neighbour array (ranks, mirrors, send/receive buffers, request slots, dimension "
+            "arrays) is the iteration's neighbour index; the message length is taken from the buffer that is sent/received; a send buffer is filled by a mirror gather into the "
+            "same buffer before isend; requests are appended unconditionally so that slot == neighbour index. Broken => data of neighbour j is unpacked with the mirror of "
+            "neighbour i for every process with >= 2 neighbours", 26)
+    ck.rule("E5.handler-commutes", "the body of a wait_any(idx) completion loop is exactly mirror[idx].scatter_axpy(target, receive_buffer[idx], alpha = 1) with a buffer irecv was posted on; "
+            "together with E5.scatter-kernel-additive the handlers of different neighbours commute, so the arrival order cannot change the result (up to rounding)", 4)
+    ck.rule("E5.scatter-kernel-additive", "Arch::Mirror::scatter_{dv,dvb,sv,svb}_generic: every store is vec[...] += alpha*buf[...] and the output array is not read otherwise; a plain "
+            "assignment makes the value at a dof shared by 3+ processes depend on which neighbour message arrives last", 4)
+    ck.rule("E2.gather-scatter-agree", "gather and scatter kernel of one vector kind address the same buffer cells and the same vector cells (normal forms over loop extents): what one "
+            "process packs is what its neighbour unpacks (blocked vectors: block size > 1)", 4)
+    ck.rule("E1.mirror-dispatch", "Arch::Mirror::{gather,scatter}_X forward their parameters unchanged, in order, to X_generic of the same name", 8)
+    ck.rule("E1.mirror-roles", "VectorMirror::gather / scatter_axpy call the kernel of the matching vector kind with buf <- the DenseVector buffer, vec/vval <- the vector (the written one "
+            "is the non-const parameter), idx/nidx <- this mirror, boff, alpha, bs = block size of the vector type", 8)
+    ck.rule("E14.muxer-slices", "Muxer::join / split: child mirror i works on slice [i*B, (i+1)*B) of the child buffer and the collective gather/scatter uses the same B for send and receive "
+            "count, the child loop covers all child mirrors, gather -> collective -> scatter order", 4)
+    ck.rule("E7.matrix-apply-sync", "Global::Matrix::{apply, apply_transposed, *_async} (2- and 4-operand): exactly one local product with method parity on (r.local(), x.local()[, "
+            "r.local(), alpha]); the 4-operand forms copy y and convert it to type-0 (from_1_to_0) exactly once before; the type-0 result is synchronised by r.sync_0() / the "
+            "returned sync_0_async ticket on every path. Broken => every shared dof holds only the local contribution", 16)
+    ck.rule("E7.gate-freqs", "Gate::compile: frequencies := 1, += 1 scattered by every mirror (buffer created by that mirror, all ones), component_invert(freqs, freqs, 1) exactly once, "
+            "last, on every path. Broken => dot products / type-1 syncs weight shared dofs by the multiplicity instead of its reciprocal", 2)
+    ck.rule("E7.gate-dot", "Gate::dot returns sum(freqs.triple_dot(x, y)) (frequencies exactly once) whenever the process may have neighbours, the unweighted dot only for a single "
+            "process / no neighbours; dot_async = sum_async(freqs.triple_dot(x, y), sqrt)", 4)
+    ck.rule("E4.gate-reduction-op", "Gate::{sum,min,max,norm2}_async build SynchScalarTicket(x | x*x, comm, op_sum | op_min | op_max | op_sum, sqrt = param | false | false | true)", 8)
+    ck.rule("E7.gate-discipline", "Gate::from_1_to_0 = vector (*) freqs once; sync_0[_async] exchanges without scaling, sync_1[_async] scales by the frequencies exactly once before the "
+            "exchange; the ticket gets (vector, comm, ranks, mirrors) of the gate and the blocking forms wait on every path", 10)
+    ck.rule("E4.vector-delegate", "Global::Vector::{sync_0, sync_1, from_1_to_0, *_async, dot, dot_async, norm2_async} delegate to the gate method of the same meaning with "
+            "(own local vector[, x.local()]); norm2sqr = dot(*this), norm2 = sqrt(norm2sqr)", 20)
 
 
-def run(tier):
-    ck = Check("C13", tier)
-    declare_rules(ck)
-    facts = load(ck)
-    check_e0(ck, facts, "double,u64")
+def analyse(ck, facts, label):
+    check_e0(ck, facts, label)
     check_requests(ck, facts)
     check_coherence(ck, facts)
     check_kernels(ck, facts)
     check_global_matrix(ck, facts)
     check_gate(ck, facts)
     check_global_vector(ck, facts)
-    return ck.finish("wip")
+    check_muxer(ck, facts)
+
+
+def run(tier):
+    ck = Check("C13", tier)
+    declare_rules(ck)
+    facts = load(ck)
+    analyse(ck, facts, "double,u64")
+    if tier != "quick":
+        f2 = load(ck, alt=True)
+        analyse(ck, f2, "float,u32")
+        for tu in ("applications/poisson_dirichlet.cpp", "kernel/util/dist.cpp"):
+            try:
+                f3 = featlib.extract(R(tu), files=R("kernel/global/") + "|" + R("kernel/util/dist"), mpi=True)
+            except featlib.AnalysisBroken as e:
+                ck.incomplete("E0.instantiate-mpi", "%s: MPI parse failed: %s" % (tu, str(e)[:200]))
+                continue
+            ck.tu(f3)
+            errs = f3.errors_in_repo()
+            ck.ob("E0.instantiate-mpi", "parse[%s]" % tu, not errs, ("%d front-end errors with -DFEAT_HAVE_MPI, first %s:%d %s" % (
+                len(errs), rel(errs[0]["file"]), errs[0]["line"], errs[0]["msg"])) if errs else "repository TU parses with -DFEAT_HAVE_MPI (%d functions of kernel/global, kernel/util/dist dumped)" % len(f3.functions), None, None)
+            if tu.startswith("applications/"):
+                check_requests(ck, f3)
+                check_coherence(ck, f3)
+                check_global_matrix(ck, f3)
+                check_gate(ck, f3, partial=True)
+                check_global_vector(ck, f3)
+    ck.assume("Dist::RequestVector::wait_any returns false only when no active request is left; wait_all / Request::wait complete their requests (kernel/util/dist.hpp, MPI 3.1 §3.7.5)")
+    ck.assume("LAFEM::DenseVector / MatrixMirrorBuffer keep their element arrays on the heap, so moving the containing std::vector does not move message buffers")
+    ck.assume("member calls that modify their receiver are written in statement position (house style); accessor calls whose value is used are not effects")
+    return ck.finish(
+        "Static rules on the MPI-enabled parse (-DFEAT_HAVE_MPI, OpenMPI headers, front end only) of tu/c13_global_mpi.cpp. Decided: (1) instantiability of the distributed classes; "
+        "(2) request typestate: every posted request is completed before its buffer dies, ticket protocol constructor -> wait() -> destructor, pending requests are not moved with "
+        "inline buffers; (3) per-neighbour index coherence of ranks / mirrors / buffers / request slots, message length from the same buffer, gather before isend; (4) the "
+        "completion handler is scatter_axpy(buffer idx, mirror idx) and the scatter kernels only add, so arrival order cannot matter; gather/scatter kernels address the same cells; "
+        "(5) type-0/type-1 discipline: Global::Matrix::apply* = local product + sync_0 on every path, Gate::dot weights by the frequencies exactly once, Gate::compile builds the "
+        "reciprocal multiplicities, sync_1 scales once before the exchange, Global::Vector delegates with parity; Muxer child slices. NOT decided: equality with the one-process run, "
+        "global dof counts, message schedules / deadlock freedom, neighbour symmetry of the halos (C12), MatrixMirror gather/scatter kernels, Splitter data movement, "
+        "SynchScalarTicket with FEAT_MPI_THREAD_MULTIPLE (thread variant is not compiled in this configuration).")
